@@ -891,6 +891,9 @@ func (a *actor) exec(st *Step, idx int) bool {
 		// serve invocations: next, respond, next, ... (Count iterations, 0 = until killed)
 		for n := 0; st.Count == 0 || n < st.Count; n++ {
 			sub := Step{Op: "rt.next", Tag: st.Tag}
+			if n == 0 {
+				sub.SigParked = st.SigParked // ordering control applies to the first poll
+			}
 			if !a.step(&sub, idx) {
 				return false
 			}
@@ -927,6 +930,9 @@ func (a *actor) exec(st *Step, idx int) bool {
 		}
 		for n := 0; st.Count == 0 || n < st.Count; n++ {
 			nx := Step{Op: "ext.next", Name: st.Name, Tag: st.Tag}
+			if n == 0 {
+				nx.SigParked = st.SigParked
+			}
 			hdr := map[string]string{}
 			if id, ok := a.identFor(&nx); ok {
 				hdr["Lambda-Extension-Identifier"] = id
